@@ -221,6 +221,7 @@ def check(run, tier):
     run.control("ASSERT div-by-zero (bad_div)", ("bad_div", "ASSERT") in failed)
     run.control("PRE unwrap (bad_unwrap)", ("bad_unwrap", "PRE") in failed and ("ok_unwrap", "PRE") not in failed)
     run.control("PRE range index (bad_range)", ("bad_range", "PRE") in failed and ("ok_range", "PRE") not in failed)
+    run.control("FORALL over a shrinking slice (bad_shrink skips elements)", ("bad_shrink", "ASSERT") in failed and ("ok_shrink", "ASSERT") in okd and ("ok_shrink", "ASSERT") not in failed)
     run.control("PANIC-CALL (bad_unreachable)", ("bad_unreachable", "PANIC-CALL") in failed and ("ok_unreachable", "PANIC-CALL") not in failed)
     run.control("ALLOC (bad_alloc)", ("bad_alloc", "ALLOC") in failed and ("ok_alloc", "ALLOC") in okd)
     run.control("NARROW (bad_narrow)", ("bad_narrow", "NARROW") in failed and ("ok_narrow", "NARROW") in okd)
